@@ -60,6 +60,17 @@ def histArrStep (st : Arr Nat) (op : String) (tok : String) : Option (Arr Nat ×
     match st.getAxis ax pos with
     | none => pure (st, tok == "NOVIEW")
     | some v => pure (st, tok == String.intercalate "," (history v.next v.len (fun (x : Nat) => toString x) n (ViewIter.init v)))
+  | ["vdrain", ax, pos, k] => do
+    let ax ← ax.toNat?; let pos ← pos.toNat?; let k ← k.toNat?
+    match st.getAxis ax pos with
+    | none => pure (st, tok == "NOVIEW")
+    | some v =>
+      -- what remains after `k` calls of next(): the view's elements from position k on, whatever method drains them
+      let rest := v.toList.drop k
+      let fold := rest.foldl (fun acc x => (acc * 31 + x) % 1000003) 0
+      let last := match rest.getLast? with | some x => toString x | none => "N"
+      let maxv := match rest.foldl (fun (m : Option Nat) x => match m with | some y => some (max x y) | none => some x) none with | some x => toString x | none => "N"
+      pure (st, tok == s!"{rest.length},{rest.length},{rest.foldl (· + ·) 0},{last},{fold},{String.intercalate "/" (rest.map toString)},{maxv}")
   | ["axis", ax, n] => do
     let ax ← ax.toNat?; let n ← n.toNat?
     pure (st, tok == String.intercalate "," (history (st.axisNext ax) (st.axisLen ax) (fun (v : View Nat) => String.intercalate "/" (v.toList.map toString)) n 0))
@@ -156,12 +167,14 @@ def handle (op : String) (a : List String) (impl : String) : Option Verdict :=
       if impl.startsWith "OK " then pure (cmpArr (impl.drop 3).toString b.shape b.data (some (sumAbs data)) "project-two-step")
       else pure (.bad s!"OK {showNats b.shape}|{showXRs b.data}")
     | .error _ => pure (cmpStr impl "ERR" "project-two-step-error")
-  | "c03.row", [sh, ix, ts] => do
+  | "c03.row", sh :: ix :: ts :: wopt => do
     let shape ← parseNats sh; let idx ← parseNats ix; let toShape ← parseNats ts
+    let w : XR ← match wopt with | [] => some (.fin 1) | [wb] => (parseHexNat wb).map f64OfBits | _ => none
+    let wabs : Rat := match w with | .fin q => absRat q | _ => 1
     match projectionNew shape toShape with
     | .ok (pf, pt) =>
-      let row : List XR := projectIter pf idx pt
-      if impl.startsWith "OK " then pure (cmpArr (impl.drop 3).toString toShape row (some 1)
+      let row : List XR := (projectIter pf idx pt).map (fun (x : XR) => x * w)
+      if impl.startsWith "OK " then pure (cmpArr (impl.drop 3).toString toShape row (some wabs)
         s!"project-row-{if pf.any (· ≥ 1030) then "ge1030" else if pf.any (· > 170) then "171to1029" else "le170"}")
       else pure (.bad s!"OK {showNats toShape}|{showXRs row}")
     | .error _ => pure (if impl.startsWith "ERR" then .ok "project-row-error" else .bad "ERR")
